@@ -402,7 +402,7 @@ func TestCheck(t *testing.T) {
 		c.SetExhaustive("qr_single_codeword", c.Thorough())
 
 		// (3) QR multi-fault cases with format / version damage (rapid)
-		c.Rapid("qr_multi_fault", c.N(250, 2000), func(t *rapid.T) {
+		c.Rapid("qr_multi_fault", c.N(250, 6000), func(t *rapid.T) {
 			v := rapid.IntRange(1, 40).Draw(t, "v")
 			if rapid.IntRange(0, 2).Draw(t, "small") > 0 {
 				v = rapid.IntRange(1, 14).Draw(t, "vs")
@@ -480,7 +480,7 @@ func TestCheck(t *testing.T) {
 		c.SetExhaustive("dm_single_codeword", c.Thorough())
 
 		// (5) Data Matrix multi-fault (rapid)
-		c.Rapid("dm_multi_fault", c.N(400, 3000), func(t *rapid.T) {
+		c.Rapid("dm_multi_fault", c.N(400, 9000), func(t *rapid.T) {
 			si := rapid.IntRange(0, len(dmref.Sizes)-1).Draw(t, "size")
 			a := dmref.Sizes[si]
 			rng := hx.NewRng(rapid.Uint64().Draw(t, "payload"))
